@@ -1,5 +1,7 @@
 import Tahoe.Immutable.LemmasChain
 import Tahoe.Base.LemmasMerkleComplete
+import Tahoe.Base.LemmasMerkleClosed
+import Tahoe.Immutable.LemmasBlocks
 /-! Completeness direction (C45 "readable from the repaired shares"): the crypttext-hash stage of the downloader
     accepts the genuine hashes (C35 completeness), and repaired shares are the uploader's shares. -/
 namespace Tahoe.Integrity
@@ -234,5 +236,85 @@ theorem seed_closed (n : Nat) (r : H) : Closed (seed (newTree H n) r) := by
   exfalso; apply h1
   unfold seed
   rw [get_set_ne _ (Ne.symm hi), get_newTree]
+
+/-! ### `Closed` is an invariant of the block-tree stages (accepted or rejected), so the stage theorems chain -/
+
+/-- a `set_hashes` call whose indices are in range keeps the tree closed, whatever its outcome (accepted: the level
+    loop fills every parent; rejected: rolled back to the tree as it was) -/
+theorem set_keeps_closed {E : Env H} {cfg : Cfg} (hstrict : StrictPresence E.ops cfg) {t : Tree H} (hcl : Closed t)
+    {pick : List Nat → Nat} {first : Nat} {hashes leaves : List (Nat × H)} {o : Outcome} {t' : Tree H}
+    (hrange : ∀ new, mergeLeaves first hashes leaves = some new → ∀ e ∈ new, e.1 < t.length)
+    (hs : setHashes E.ops cfg pick first t hashes leaves = (o, t')) : Closed t' := by
+  by_cases ho : o = .ok
+  · subst ho
+    obtain ⟨new, st, _, hres, e⟩ := setHashes_ok hs
+    rw [← e]
+    exact tryBody_closed hstrict pick t new hcl hres
+  · have := setHashes_fail_same hstrict hrange hs ho
+    subst this
+    exact hcl
+
+/-- `_satisfy_block_hash_tree` keeps the share's block hash tree closed, whatever the share answered -/
+theorem stageBlockHashes_keeps_closed {E : Env H} {cfg : Cfg} (hstrict : StrictPresence E.ops cfg)
+    (pick : List Nat → Nat) (shnum segnum : Nat) (v : View H) (nd : Node H) {T : Tree H} {u : UEB H} {sz : Sizes}
+    (hk : nd.known = some (u, sz)) (hok : TreeOK E.ops T (nd.blockTree shnum sz.numSegs))
+    (hcl : Closed (nd.blockTree shnum sz.numSegs)) :
+    Closed ((stageBlockHashes E cfg pick shnum segnum v nd).2.blockTree shnum sz.numSegs) := by
+  unfold stageBlockHashes
+  rw [hk]
+  simp only
+  cases hn : neededHashes? (nd.blockTree shnum sz.numSegs) (firstLeafNum sz.numSegs) segnum true with
+  | none => simp only; exact hcl
+  | some needed =>
+    cases needed with
+    | nil => simp only; exact hcl
+    | cons a rest =>
+      simp only
+      cases hc : collect (a :: rest) v.blockHashes with
+      | none => simp only; exact hcl
+      | some hs =>
+        simp only
+        have hrange : ∀ new, mergeLeaves (firstLeafNum sz.numSegs) hs [] = some new →
+            ∀ e ∈ new, e.1 < (nd.blockTree shnum sz.numSegs).length := by
+          intro new hm e he
+          have : new = hs := by simp [mergeLeaves] at hm; exact hm.symm
+          subst this
+          exact neededHashes?_lt (treeOK_odd hok) hn _ (collect_keys hc e he)
+        cases hsr : setHashes E.ops cfg pick (firstLeafNum sz.numSegs) (nd.blockTree shnum sz.numSegs) hs [] with
+        | mk o t' =>
+          have := set_keeps_closed hstrict hcl hrange hsr
+          cases o <;> (simp only; rw [blockTree_set_same]; exact this)
+
+/-- `_satisfy_data_block` keeps the share's block hash tree closed, whatever block the share sent -/
+theorem stageData_keeps_closed {E : Env H} {cfg : Cfg} (hstrict : StrictPresence E.ops cfg)
+    (pick : List Nat → Nat) (shnum segnum : Nat) (v : View H) (nd : Node H) {T : Tree H} {u : UEB H} {sz : Sizes}
+    (hk : nd.known = some (u, sz)) (hok : TreeOK E.ops T (nd.blockTree shnum sz.numSegs))
+    (hseg : segnum < sz.numSegs) (hlen : T.length = 2 * roundupPow2 sz.numSegs - 1)
+    (hcl : Closed (nd.blockTree shnum sz.numSegs)) :
+    Closed ((stageData E cfg pick shnum segnum v nd).2.blockTree shnum sz.numSegs) := by
+  unfold stageData
+  rw [hk]
+  simp only
+  generalize (if segnum + 1 = sz.numSegs then sz.tailBlockSize else sz.blockSize) = blocklen
+  split
+  · exact hcl
+  · have hrange : ∀ new, mergeLeaves (firstLeafNum sz.numSegs) [] [(segnum, E.tagged .block v.block)] = some new →
+        ∀ e ∈ new, e.1 < (nd.blockTree shnum sz.numSegs).length := by
+      intro new hm e he
+      simp [mergeLeaves] at hm
+      subst hm
+      simp at he
+      subst he
+      have := roundupPow2_ge sz.numSegs
+      have := roundupPow2_pos sz.numSegs
+      rw [hok.2.1, hlen]
+      show firstLeafNum sz.numSegs + segnum < _
+      unfold firstLeafNum
+      omega
+    cases hsr : setHashes E.ops cfg pick (firstLeafNum sz.numSegs) (nd.blockTree shnum sz.numSegs) []
+        [(segnum, E.tagged .block v.block)] with
+    | mk o t' =>
+      have := set_keeps_closed hstrict hcl hrange hsr
+      cases o <;> (simp only; rw [blockTree_set_same]; exact this)
 
 end Tahoe.Integrity
